@@ -54,10 +54,12 @@ pub struct SetCfg {
     pub alt_hasher: bool,
     /// offer per-key operations only for ids below this
     pub ops_universe: Option<u8>,
+    /// run the iterator / removal probes in every visited state (C09, C10 counterparts for sets)
+    pub iter_probes: bool,
 }
 impl SetCfg {
     pub fn new(plan: Plan, universe: u8) -> Self {
-        SetCfg { plan, universe, reduce: true, full_alphabet: true, max_buckets: 64, alt_hasher: false, ops_universe: None }
+        SetCfg { plan, universe, reduce: true, full_alphabet: true, max_buckets: 64, alt_hasher: false, ops_universe: None, iter_probes: false }
     }
     pub fn label(&self) -> String {
         format!("set-{}-u{}{}", self.plan.name(), self.universe, if self.reduce { "-sym" } else { "-nosym" })
@@ -475,6 +477,150 @@ impl Harness for SetHarness {
     fn finish(&self, s: SetSut) -> Result<(), String> {
         s.finish()
     }
+    fn probes(&self, rebuild: &dyn Fn() -> SetSut, s: &mut SetSut, stats: &Stats) -> Result<(), String> {
+        if self.cfg.iter_probes {
+            probe_set_iterators(rebuild, s, self.cfg.universe, stats)?;
+        }
+        Ok(())
+    }
+}
+
+/// Set counterparts of C09 / C10: every iterator kind x prefix x tail, drain and
+/// extract_if at every cut and for every predicate subset, conversions.
+pub fn probe_set_iterators(rebuild: &dyn Fn() -> SetSut, s: &mut SetSut, universe: u8, stats: &Stats) -> Result<(), String> {
+    use crate::mapprobes::{drive, Tail};
+    use hashbrown::hash_set;
+    let n = s.model.len();
+    let mut full: Vec<(u8, u32, u32)> = s.model.iter().map(|e| (e.0, e.1, 0)).collect();
+    full.sort_unstable();
+    let cv = |k: &TKey| (k.id, k.tok, 0u32);
+    let co = |k: TKey| (k.id, k.tok, 0u32);
+    let expect = |what: &str, mut got: Vec<(u8, u32, u32)>| -> Result<(), String> {
+        got.sort_unstable();
+        if got != full {
+            return Err(format!("{what}: yielded {:?}, reference {:?}", got, full));
+        }
+        Ok(())
+    };
+    let mut count = 0u64;
+    for j in 0..=n + 2 {
+        for tail in [Tail::Next, Tail::Fold, Tail::ForEach] {
+            expect("set.iter()", drive(s.set.iter(), n, j, tail, "set.iter()", &cv)?)?;
+            expect("(&set).into_iter()", drive((&s.set).into_iter(), n, j, tail, "(&set).into_iter()", &cv)?)?;
+            count += 2;
+        }
+        if j <= n {
+            let mut a = s.set.iter();
+            for _ in 0..j {
+                a.next();
+            }
+            let b = a.clone();
+            let mut ra = drive(a, n - j, 0, Tail::Next, "set.iter() after clone", &cv)?;
+            let mut rb = drive(b, n - j, 0, Tail::Fold, "set.iter().clone()", &cv)?;
+            ra.sort_unstable();
+            rb.sort_unstable();
+            if ra != rb {
+                return Err("set.iter().clone() does not continue from the same position".into());
+            }
+        }
+        for tail in [Tail::Next, Tail::Fold, Tail::DropNow] {
+            {
+                let mut t = rebuild();
+                let set = std::mem::take(&mut t.set);
+                let got = drive(set.into_iter(), n, j, tail, "set.into_iter()", &co)?;
+                if tail != Tail::DropNow {
+                    expect("set.into_iter()", got)?;
+                }
+                t.finish().map_err(|m| format!("after set.into_iter() ({:?} after {j}): {m}", tail))?;
+            }
+            {
+                let mut t = rebuild();
+                let asize = t.set.allocation_size();
+                let got = drive(t.set.drain(), n, j, tail, "set.drain()", &co)?;
+                if tail != Tail::DropNow {
+                    expect("set.drain()", got)?;
+                }
+                if !t.set.is_empty() || t.set.allocation_size() != asize {
+                    return Err("set.drain(): the set must be empty and keep its allocation afterwards".into());
+                }
+                t.model.clear();
+                t.check_all(universe, true).map_err(|m| format!("after set.drain() ({:?} after {j}): {m}", tail))?;
+                t.finish().map_err(|m| format!("after set.drain(): {m}"))?;
+            }
+            count += 2;
+        }
+    }
+    // extract_if / retain: every subset of the stored elements (small sets), every early-drop point
+    if n <= 6 {
+        let ids: Vec<u8> = full.iter().map(|e| e.0).collect();
+        for mask in 0..(1u32 << n) {
+            let sel = |id: u8| ids.iter().position(|&x| x == id).map_or(false, |p| mask >> p & 1 == 1);
+            let total = (0..n).filter(|p| mask >> p & 1 == 1).count();
+            for cut in 0..=total {
+                let mut t = rebuild();
+                let mut visited = Vec::new();
+                let mut yielded = Vec::new();
+                {
+                    let mut it = t.set.extract_if(|k| {
+                        visited.push(k.id);
+                        sel(k.id)
+                    });
+                    for _ in 0..cut {
+                        match it.next() {
+                            Some(k) => yielded.push(k.id),
+                            None => return Err("set.extract_if ended early".into()),
+                        }
+                    }
+                    if cut == total && it.next().is_some() {
+                        return Err("set.extract_if yielded an element the predicate did not select".into());
+                    }
+                }
+                let removed: Vec<u8> = visited.iter().copied().filter(|&id| sel(id)).collect();
+                if removed.len() != yielded.len() || yielded.iter().any(|y| !sel(*y)) {
+                    return Err(format!("set.extract_if(mask {mask:#b}, cut {cut}): yielded {:?}, selected among visited {:?}", yielded, removed));
+                }
+                t.model.retain(|e| !removed.contains(&e.0));
+                t.check_all(universe, true).map_err(|m| format!("after set.extract_if(mask {mask:#b}, cut {cut}): {m}"))?;
+                t.finish()?;
+                count += 1;
+            }
+            let mut t = rebuild();
+            t.set.retain(|k| sel(k.id));
+            t.model.retain(|e| sel(e.0));
+            t.check_all(universe, true).map_err(|m| format!("after set.retain(mask {mask:#b}): {m}"))?;
+            t.finish()?;
+            count += 1;
+        }
+    }
+    // conversions
+    {
+        let t = rebuild();
+        let from_iter: Set = t.set.iter().map(|k| TKey::make(k.id, k.tok)).collect();
+        if from_iter != t.set || t.set != from_iter {
+            return Err("HashSet::from_iter of the set's own elements is not equal to it".into());
+        }
+        let mut m: hashbrown::HashMap<TKey, (), PlanBuild, CheckAlloc> = Default::default();
+        for k in t.set.iter() {
+            m.insert(TKey::make(k.id, k.tok), ());
+        }
+        let from_map: Set = Set::from(m);
+        if from_map != t.set {
+            return Err("HashSet::from(HashMap<T, ()>) is not equal to the set".into());
+        }
+        drop((from_iter, from_map));
+        t.finish()?;
+        count += 2;
+    }
+    fn empty<I: Iterator + ExactSizeIterator>(mut it: I, what: &str) -> Result<(), String> {
+        if it.len() != 0 || it.size_hint() != (0, Some(0)) || it.next().is_some() {
+            return Err(format!("{what}::default() is not an empty iterator"));
+        }
+        Ok(())
+    }
+    empty(hash_set::Iter::<TKey>::default(), "hash_set::Iter")?;
+    empty(hash_set::IntoIter::<TKey, CheckAlloc>::default(), "hash_set::IntoIter")?;
+    stats.probe(count + 2);
+    Ok(())
 }
 
 // ---------------------------------------------------------------------------
